@@ -62,6 +62,11 @@ pub fn vstall(rng: &mut Rng) -> StallPlan {
 }
 
 pub fn pick_flavor(rng: &mut Rng) -> Flavor {
+    if !cfg!(feature = "async_flavour") {
+        // the harness built against the library's default feature set: `Cache` only
+        let _ = rng.chance(1, 2);
+        return Flavor::Sync;
+    }
     match std::env::var("DST_FLAVOR").ok().as_deref() {
         Some("sync") => Flavor::Sync,
         Some("async") => Flavor::Async,
@@ -77,6 +82,10 @@ pub fn pick_flavor(rng: &mut Rng) -> Flavor {
 
 /// flavour for single-client (lock-step) families: also the single-task executor
 pub fn pick_flavor_l(rng: &mut Rng) -> Flavor {
+    if !cfg!(feature = "async_flavour") {
+        let _ = rng.below(20);
+        return Flavor::Sync;
+    }
     match std::env::var("DST_FLAVOR").ok().as_deref() {
         Some("sync") => Flavor::Sync,
         Some("async") => Flavor::Async,
@@ -984,6 +993,10 @@ pub fn gen_wall_step(prop: &str, seed: u64) -> Plan {
         }
         if i > 0 && rng.chance(1, 2) || i + 1 == steps {
             ops.push(Op::WallStepBack { ns: back(&mut rng) });
+        } else if rng.chance(1, 4) {
+            // the wall clock alone jumps ahead (the daemon corrects a slow clock): entries may
+            // fall due at once, but no timer fires early
+            ops.push(Op::WallStepFwd { ns: back(&mut rng).min(100 * SEC) });
         }
         for k in &universe {
             if rng.chance(2, 3) {
@@ -1209,6 +1222,39 @@ pub fn gen_mega(prop: &str, seed: u64) -> Plan {
 }
 
 
+/// A long cache life in one run (C17/C06): more than a hundred thousand distinct keys admitted into
+/// one cache (bookkeeping sized for "the last 100 000 admissions" wraps, maps grow and rehash),
+/// then the conservation laws are judged on the snapshot.  Observers are muted (every admission
+/// event would carry the whole table of charges).
+pub fn gen_mega_admissions(prop: &str, seed: u64) -> Plan {
+    let mut rng = Rng::new(seed ^ 0x3e6b);
+    let flavor = pick_flavor(&mut rng);
+    let mut cfg = roomy_cfg(&mut rng, flavor);
+    cfg.metrics = true;
+    cfg.max_cost = 100_000_000;
+    cfg.cleanup_ms = 5000;
+    let n = 100_000 + rng.range(4_000, 30_000);
+    cfg.buffer_size = n as usize + 64;
+    let mut sim = sim_plan(&mut rng, false);
+    sim.max_steps = 80_000_000;
+    sim.throttle = 64;
+    let base = 1u64 << 24;
+    let universe: Vec<u64> = vec![base, base + n / 2, base + n - 1, 5];
+    let mut ops: Vec<Op> = Vec::new();
+    ops.push(Op::Insert { k: 5, cost: 1, ttl_ns: 0, size: 1 });
+    ops.push(Op::InsertMany { base, n });
+    ops.push(Op::Wait);
+    ops.push(Op::Barrier);
+    for k in &universe {
+        ops.push(Op::Get { k: *k, hold: 0 });
+    }
+    ops.push(Op::Remove { k: base + 1 });
+    ops.push(Op::Insert { k: 6, cost: 1, ttl_ns: 0, size: 1 });
+    ops.push(Op::Wait);
+    ops.push(Op::Barrier);
+    Plan { prop: prop.into(), family: "L-mega-admissions".into(), seed, cfg, sim, clients: vec![ops], chaos: vec![], finale: Finale::None, universe, tags: vec!["under_capacity".into(), "mega".into(), "mega_admissions".into()] }
+}
+
 /// clear() with a backlog (C11): items are queued without waiting, then the processor is stalled
 /// for a while of virtual time somewhere inside the clear's work (which starts by draining the
 /// buffer) - time that code under test may be measuring.
@@ -1392,6 +1438,11 @@ pub fn apply_defaults(p: &mut Plan) {
 
 pub fn gen_plan(prop: &str, seed: u64, variant: u64) -> Plan {
     let mut p = gen_plan_inner(prop, seed, variant);
+    if !cfg!(feature = "async_flavour") && p.cfg.flavor != Flavor::Sync {
+        // families that exist for the async flavour only (cancellation, single-task executor):
+        // the default-features build runs the property's general family instead
+        p = gen_p_family(prop, seed, &profile_for(prop));
+    }
     // the builder recipe (constructor, order of setters) varies with the run
     if !matches!(p.cfg.keys, KeyMode::Typed { .. }) {
         p.cfg.recipe = ((variant / 3) % 8) as u8;
@@ -1454,6 +1505,7 @@ fn gen_plan_inner(prop: &str, seed: u64, variant: u64) -> Plan {
         "C03" | "C04" | "C20" if variant % 40 == 23 => gen_wall_step(prop, seed),
         "C05" if variant % 40 == 23 => gen_wall_step_sweep(prop, seed),
         "C13" | "C15" if variant % 20_000 == 3 => gen_mega(prop, seed),
+        "C17" | "C06" if variant % 20_000 == 5 => gen_mega_admissions(prop, seed),
         "C11" if variant % 11 == 5 => gen_clear_backlog(prop, seed),
         "C13" | "C15" if variant % 97 == 5 => gen_hot(prop, seed),
         // cancellation: futures of remove()/wait() dropped at their await point (full buffer,
